@@ -9,15 +9,15 @@ seeded sample of rows for n = 1024..4096 over F_40961, complete traces of sparse
 interpolation at n = 1024, 2048, and the digest term schema for k = 1..20, d = 1..3 and nine
 (partitions, hash rate) pairs; it also checks (constant level) that the chunks tile the row and that
 the chunk count the prover allocates is the verifier's.  The harness replays on the serial build and
-on the concurrent build inside rayon pools of 1, 4 and 16 threads."""
+on the concurrent build inside rayon pools of 1, 3, 4, 7 and 16 threads."""
 import json, os, collections
 import vf, airalglib as al
 
-THREADS = [1, 4, 16]
+THREADS = [1, 3, 4, 7, 16]
 
 META = dict(
-    technique="TLA+ definitions of the LDE / trace / point evaluation over toy prime fields (TLC computes complete or sampled expected rows, Generate->Replay) and symbolic row-commitment terms under the verifier's partition rule, evaluated with the real hashers and MerkleTree (term evaluation); serial build and concurrent build under 3 rayon pool sizes",
-    text="RowMatrix::evaluate_polys / evaluate_polys_over with segment widths 8 (the prover's), 4 and 1, ColMatrix::evaluate_columns_over / evaluate_columns_at / interpolate_columns(_into) are compared with TLC-computed rows for every column count 1..20 (partial segments included), n = 8..64 and blowup 2..16 over F_257 and n = 1024..4096 over F_40961 (both sides of the 1024 concurrency threshold), base, quadratic and cubic elements, the generator offset and seeded offsets. RowMatrix::commit_to_rows with nine partition options and ColMatrix::commit_to_rows are compared with the Merkle root of the per-row digests the verifier's hash_row rule defines (single hash, merge_many of 1..16 chunk digests, partition size larger than the row), with Blake3_256 over the toy fields and Rp64_256 / Blake3_256 over f64; every run of the concurrent build (1, 4, 16 threads) must return the same values.",
+    technique="TLA+ definitions of the LDE / trace / point evaluation over toy prime fields (TLC computes complete or sampled expected rows, Generate->Replay) and symbolic row-commitment terms under the verifier's partition rule, evaluated with the real hashers and MerkleTree (term evaluation); serial build and concurrent build under 5 rayon pool sizes (powers of two and not)",
+    text="RowMatrix::evaluate_polys / evaluate_polys_over with segment widths 8 (the prover's), 4 and 1, ColMatrix::evaluate_columns_over / evaluate_columns_at / interpolate_columns(_into) are compared with TLC-computed rows for every column count 1..20 (partial segments included), n = 8..64 and blowup 2..16 over F_257 and n = 1024..4096 over F_40961 (both sides of the 1024 concurrency threshold), base, quadratic and cubic elements, the generator offset and seeded offsets. RowMatrix::commit_to_rows with nine partition options and ColMatrix::commit_to_rows are compared with the Merkle root of the per-row digests the verifier's hash_row rule defines (single hash, merge_many of 1..16 chunk digests, partition size larger than the row), with Blake3_256 over the toy fields and Rp64_256 / Blake3_256 over f64; every run of the concurrent build (1, 3, 4, 7, 16 threads) must return the same values.",
     note="Toy fields stand in for the production fields (generic code). For n >= 1024 the LDE is compared at a seeded sample of rows (first, last, n, N/2+1, random) and interpolation uses sparse polynomials whose complete trace TLC can compute. The commitment check takes the rows from the real matrix (whose values the lde engine checks) and trusts MerkleTree::new as the vector commitment (C18). The rayon scheduler is sampled, not enumerated.",
     design="7/C28")
 
